@@ -13,11 +13,11 @@ META = {
     "technique": "Lean reference interpreter of Documentation/Template.md (Tpl, printTpl, expand) evaluated on generated template trees x value trees; kernel-checked theorems for tag-free text, the finder, the expression semantics used by {math:}/case (C04 evaluate_eq_tree) and rendering safety of well-formed tag trees",
     "level": "proof",
     "design_ref": "DESIGN.md §6 C02, notes/design-tmpl.md",
-    "text": "For generated well-formed templates (text, var, raw, math, super variable, inline if, if/elseif/else chains, nested loops over arrays and objects) and value trees the text appended by the real renderer equals the documented expansion computed by the Lean reference interpreter. Proved in Lean (parse + render of the printed template = expand, for every value, number reader, formatter and escape switch): render_parse_print_loops / render_parse_print_wf — trees of segment runs (text, {var:}, {raw:}, {math:} over literals and {var:path} operands), inline {if case= true= false=} tags (either value optional), super variables {svar:path, a1..an} (1..10 var/raw/math arguments; {i} replacement in the phrase, escaping of the literal stretches), <if>/<elseif>/<else /> chains and <loop [set=S] value=V> loops nested in any order to any depth (loop variables in var/raw/math/case operands, super variable arguments and inner set= paths, shadowing; arrays, objects, anything else; undefined members), i.e. every node kind of the template grammar of the model, under the side conditions of the statement (ok / pathV / caseV: the semantic conditions are that a path starting with an enclosing loop's value name is that loop's variable, that a super variable's path does not start with such a name, and that the units of the strings in the value are below 2^32). Earlier stages (text, segments, block trees, one top-level loop) are special cases kept as separate theorems. Outside the proved class: sort=/group= attributes (C15/C18), real-number formatting (C10) and templates that break the side conditions; those are decided per run by this check.",
+    "text": "For generated well-formed templates (text, var, raw, math, super variable, inline if, if/elseif/else chains, nested loops over arrays and objects) and value trees the text appended by the real renderer equals the documented expansion computed by the Lean reference interpreter. Proved in Lean (parse + render of the printed template = expand, for every value, number reader, formatter and escape switch): render_parse_print_loops / render_parse_print_wf — trees of segment runs (text, {var:}, {raw:}, {math:} over literals and {var:path} operands), inline {if case= true= false=} tags (either value optional), super variables {svar:path, a1..an} (1..10 var/raw/math arguments; {i} replacement in the phrase, escaping of the literal stretches), <if>/<elseif>/<else /> chains and <loop [set=S] value=V> loops nested in any order to any depth (loop variables in var/raw/math/case operands, super variable arguments and inner set= paths, shadowing; arrays, objects, anything else; undefined members), i.e. every node kind of the template grammar of the model, under the side conditions of the statement (ok / pathV / caseV: the semantic conditions are that a path starting with an enclosing loop's value name is that loop's variable, that a super variable's path does not start with such a name, and that the units of the strings in the value are below 2^32). render_parse_print_instance discharges every hypothesis on a concrete template and value (loop over the root, super variable with a loop variable and an expression as arguments) and has the kernel evaluate the reference expansion. Earlier stages (text, segments, block trees, one top-level loop) are special cases kept as separate theorems. Outside the proved class: sort=/group= attributes (C15/C18), real-number formatting (C10) and templates that break the side conditions; those are decided per run by this check.",
     "note": "Side conditions of well-formed templates are explicit in the generator (names free of delimiters, loop value names not a prefix of any other name, attribute texts free of their quote, integers only: real formatting is C10, sort/group are C15/C18).",
 }
 
-THEOREMS = ["Qentem.Props.C02.render_parse_print_text", "Qentem.Props.C02.parse_segs", "Qentem.Props.C02.render_parse_print_segs", "Qentem.Props.C02.getValue_eq_resolve", "Qentem.Props.C02.scan_eval_relocatable", "Qentem.Props.C02.render_parse_print_blocks", "Qentem.Props.C02.render_parse_print_tree", "Qentem.Props.C02.render_parse_print_loop_partial", "Qentem.Props.C02.render_parse_print_loops", "Qentem.Props.C02.render_parse_print_wf", "Qentem.Props.C02.expandList_text", "Qentem.Props.C01.render_text", "Qentem.Props.C01.parse_text", "Qentem.Props.C01.finder_safe_total",
+THEOREMS = ["Qentem.Props.C02.render_parse_print_text", "Qentem.Props.C02.parse_segs", "Qentem.Props.C02.render_parse_print_segs", "Qentem.Props.C02.getValue_eq_resolve", "Qentem.Props.C02.scan_eval_relocatable", "Qentem.Props.C02.render_parse_print_blocks", "Qentem.Props.C02.render_parse_print_tree", "Qentem.Props.C02.render_parse_print_loop_partial", "Qentem.Props.C02.render_parse_print_loops", "Qentem.Props.C02.render_parse_print_wf", "Qentem.Props.C02.render_parse_print_instance", "Qentem.Props.C02.expandList_text", "Qentem.Props.C01.render_text", "Qentem.Props.C01.parse_text", "Qentem.Props.C01.finder_safe_total",
             "Qentem.Props.C01.render_safe_of_wf", "Qentem.Props.C04.evaluate_eq_tree",
             "Qentem.Props.C03.escape_no_raw_special"]
 OPEN = ["Qentem.Props.C02.RenderParsePrint: the statement with an unspecified WellFormed (statement only). Proved for the explicit class WellFormedT (all node kinds) as render_parse_print_wf; not proved: that every template of the generator of this check lies in WellFormedT, and the group= stream (C18); decided per run by this check"]
